@@ -237,6 +237,8 @@ pub struct HarnessError(pub String);
 /// One path shared by the client threads of a same-path `Concurrent` operation: which image is
 /// installed there, and its real-disk mirror.
 pub struct SharedDisk {
+    /// Bumped at every installation: a load can tell that the path changed under it.
+    generation: std::sync::atomic::AtomicU64,
     current: std::sync::atomic::AtomicUsize,
     real: std::sync::Mutex<Option<RealDisk>>,
     path: PathBuf,
@@ -246,7 +248,11 @@ impl SharedDisk {
     fn get(&self) -> usize {
         self.current.load(std::sync::atomic::Ordering::SeqCst)
     }
+    fn generation(&self) -> u64 {
+        self.generation.load(std::sync::atomic::Ordering::SeqCst)
+    }
     fn install(&self, idx: usize) {
+        self.generation.fetch_add(1, std::sync::atomic::Ordering::SeqCst);
         self.current.store(idx, std::sync::atomic::Ordering::SeqCst);
         if let Some(r) = self.real.lock().unwrap_or_else(|e| e.into_inner()).as_mut() {
             r.install(idx);
@@ -925,6 +931,7 @@ impl Sim {
                             None => PathBuf::from(format!("/simdisk/shared.{}.list", sc.seed)),
                         };
                         let sh = Arc::new(SharedDisk {
+                            generation: std::sync::atomic::AtomicU64::new(0),
                             current: std::sync::atomic::AtomicUsize::new(threads[0].image),
                             real: std::sync::Mutex::new(rd),
                             path,
@@ -1116,6 +1123,7 @@ impl Sim {
                         });
                         (w.cur(), budget)
                     };
+                    let gen_start = self.world.borrow().shared.as_ref().map(|s| s.generation());
                     let r = catch_unwind(AssertUnwindSafe(|| LeapSecondsFile::from_path(&path)));
                     let (a, image_at_end) = {
                         let mut w = self.world.borrow_mut();
@@ -1130,6 +1138,9 @@ impl Sim {
                     if fired.any_error_like() || fired.replace.is_some() {
                         any_fault_or_race = true;
                     }
+                    // On a shared path another thread's plan may have replaced the file meanwhile.
+                    let changed_by_others =
+                        gen_start != self.world.borrow().shared.as_ref().map(|s| s.generation());
                     sig.u64(fired.eintr.min(3) as u64);
                     sig.u64(fired.hard.len() as u64);
                     if let Some(h) = fired.hard.first() {
@@ -1254,7 +1265,7 @@ impl Sim {
                                     // A rendering with liberties of debatable status: refusing it
                                     // is not a wrong answer.
                                     w.ctr.inc(C::loads_refused_lenient_format);
-                                } else if fired.replace.is_some() || sc.stat_lies != 0 {
+                                } else if fired.replace.is_some() || changed_by_others || sc.stat_lies != 0 {
                                     // The file changed while it was being loaded, or `stat`
                                     // disagrees with the content: a loader that notices (reads
                                     // twice, compares sizes) and refuses is not answering wrongly.
@@ -1282,6 +1293,7 @@ impl Sim {
                                 if !fired.any_error_like()
                                     && candidates.iter().all(|&c| ctx.images[c].strict)
                                     && fired.replace.is_none()
+                                    && !changed_by_others
                                     && sc.stat_lies == 0
                                 {
                                     violation = Some(mk(
